@@ -153,6 +153,77 @@ def crossover_step_ops(h: Harness, rng):
                 break
 
 
+def short_population_crossover(h: Harness, rng):
+    """the crossover step asked for MORE offspring than the population can pair (a population of 1 or 3, twice as many offspring): whatever it
+    yields before it gives up -- or instead of giving up -- is made of genes the members of the population carry at the same locus"""
+    import pargrammar
+    from geneticengine.algorithms.gp.operators.crossover import GenericCrossoverStep
+    from geneticengine.evaluation.sequential import SequentialEvaluator
+    from geneticengine.problems import SingleObjectiveProblem
+    from geneticengine.random.sources import NativeRandomSource
+    from geneticengine.solutions.individual import Individual
+    g = pargrammar.grammar()
+    problem = SingleObjectiveProblem(lambda p: 0.0)
+    shared = NativeRandomSource(1)
+    for name, mk in (("GE", lambda: GE(g, synth.make_decider("grow", 4, shared, g), gene_length=24)), ("Stack", lambda: Stack(g, gene_length=300)),
+                     ("SGE", lambda: SGE(g, synth.make_decider("grow", 4, shared, g), gene_length=12))):
+        for npop, target in ((3, 6), (1, 2), (5, 12), (4, 4), (2, 8)):
+            rep = mk()
+            r = NativeRandomSource(rng.randrange(10**6))
+            pop = [Individual(rep.create_genotype(r), rep) for _ in range(npop)]
+            flat = [geno_flat(i.genotype) for i in pop]
+            out = []
+            try:
+                for o in GenericCrossoverStep(1).apply(problem, SequentialEvaluator(), rep, r, list(pop), target, 0):
+                    out.append(o)
+            except Exception as e:  # noqa: BLE001   (giving up is an answer; C06 speaks about the offspring that exist)
+                h.count(f"short-population-crossover:{name}:gave-up:{type(e).__name__}")
+            h.count(f"short-population-crossover:{name}")
+            h.seen(f"short-pop-crossover:{name}:{npop}:{target}", nontrivial=bool(out))
+            for j, o in enumerate(out):
+                a = geno_flat(o.genotype)
+                bad = [k for k in range(len(a)) if not any(k < len(f) and f[k] == a[k] for f in flat)]
+                if bad or not any(len(a) == len(f) for f in flat):
+                    h.fail(f"{name}:GenericCrossoverStep", "gene-not-from-parents-at-locus",
+                           f"{name}: GenericCrossoverStep(1) on a population of {npop} asked for {target} offspring: offspring #{j} carries {len(bad)} gene(s) "
+                           f"(first at locus {bad[0] if bad else '-'}) that NO member of the population has at that locus", [name, npop, target, j])
+                    break
+
+
+def repeated_gene_values(h: Harness, rng):
+    """genomes that hold the SAME value at several loci (after many mutations of a stack genome, whose new genes come from 0..10000; a
+    hand-written or imported genome): a point mutation changes at most one locus and keeps the length; crossover is still locus-wise"""
+    import pargrammar
+    from geneticengine.random.sources import NativeRandomSource
+    g = pargrammar.grammar()
+    shared = NativeRandomSource(1)
+    for name, mk in (("GE", lambda: GE(g, synth.make_decider("grow", 4, shared, g), gene_length=24)), ("Stack", lambda: Stack(g, gene_length=64))):
+        rep = mk()
+        for trial in range(h.n(40, 300)):
+            r = NativeRandomSource(rng.randrange(10**6))
+            a, b_ = rep.create_genotype(r), rep.create_genotype(r)
+            vals = [rng.randrange(0, 10**6) for _ in range(rng.choice([1, 2, 3]))]
+            pa = type(a)(dna=[rng.choice(vals) for _ in a.dna])
+            pb = type(b_)(dna=[rng.choice(vals) for _ in b_.dna])
+            st, m = safe(lambda: rep.mutate(r, pa))
+            h.count(f"repeated-gene-values:{name}")
+            h.seen(f"repeated-values:{name}:{trial}", nontrivial=True)
+            if st == "ok":
+                diff = [k for k, (x, y) in enumerate(zip(pa.dna, m.dna)) if x != y]
+                if len(m.dna) != len(pa.dna) or len(diff) > 1:
+                    h.fail(f"{name}.mutate", "mutation-not-local",
+                           f"{name}.mutate of a genome whose genes take {len(vals)} distinct value(s): the mutant has {len(m.dna)} genes (parent {len(pa.dna)}) and "
+                           f"differs from its parent at {len(diff)} loci {diff[:6]}", [name, trial, vals])
+                    break
+            st, cs = safe(lambda: rep.crossover(r, pa, pb))
+            if st == "ok":
+                for c in cs:
+                    if len(c.dna) != len(pa.dna) or any(x != y and x != z for x, y, z in zip(c.dna, pa.dna, pb.dna)):
+                        h.fail(f"{name}.crossover", "gene-not-from-parents-at-locus", f"{name}.crossover of two genomes with repeated gene values: a child gene "
+                               f"is carried by neither parent at its locus", [name, trial, vals])
+                        break
+
+
 def geno_flat(genotype) -> list:
     dna = genotype.dna
     if isinstance(dna, dict):
@@ -460,6 +531,8 @@ def run(h: Harness):
     foreign_length_parents(h, h.rng)
     mutation_step_ops(h, h.rng)
     crossover_step_ops(h, h.rng)
+    short_population_crossover(h, h.rng)
+    repeated_gene_values(h, h.rng)
     structured_ops(h, h.rng)
     dsge_ops(h, h.rng)
     dsge_histories(h, h.rng)
